@@ -141,7 +141,7 @@ def lemma(name, **kw):
 ZLEMMAS = {}         # name -> (props, build, note): pure SMT lemmas used by modular summaries
 
 
-def zlemma(name, props, build, note=''):
+def zlemma(name, props, build, note='', prefer=None):
     """A property-level lemma stated directly as z3 terms: build() -> (list of assumptions, goal).  It is
     discharged (assumptions and not goal unsat) in every check of a property it serves."""
-    ZLEMMAS[name] = (list(props), build, note)
+    ZLEMMAS[name] = (list(props), build, note, prefer)
